@@ -107,15 +107,22 @@ def make_data(rnd, ncomp, weighted):
     return (e, no), data, weights, q
 
 
-def chain_case(rnd, vd, kind, nsteps=None, all_gridders=False):
-    ncomp = rnd.choice([1, 1, 2])
+def chain_case(rnd, vd, kind, nsteps=None, all_gridders=False, steps=None, outside=False):
+    """steps: a given step list (single component); outside: the query also has points outside the convex hull of
+    the data, where Linear/Cubic steps predict NaN - the chain's sum must then be NaN exactly there (checked here, on
+    the NaN masks) and the usual sum elsewhere (checked in Coq on the remaining positions)"""
+    ncomp = rnd.choice([1, 1, 2]) if steps is None else 1
     weighted = rnd.random() < 0.5
     coords, data, weights, q = make_data(rnd, ncomp, weighted)
-    nsteps = nsteps or rnd.randint(1, 4)
-    steps = []
-    for i in range(nsteps):
-        s = make_step_gridder(rnd, vd, ncomp) if all_gridders else make_step(rnd, vd, ncomp)
-        steps.append(s)
+    if outside:
+        q = (np.concatenate([q[0], [-5.0, 12.0, 3.0, 3.0]]), np.concatenate([q[1], [0.0, 0.0, -9.0, 9.0]]))
+    if steps is None:
+        nsteps = nsteps or rnd.randint(1, 4)
+        steps = []
+        for i in range(nsteps):
+            s = make_step_gridder(rnd, vd, ncomp) if all_gridders else make_step(rnd, vd, ncomp)
+            steps.append(s)
+    nsteps = len(steps)
     names = [s[0] for s in steps]
     # step labels: unique, or deliberately repeated (the steps are a LIST of pairs; nothing requires unique names)
     labels = ["s%d" % i for i in range(len(steps))]
@@ -166,6 +173,30 @@ def chain_case(rnd, vd, kind, nsteps=None, all_gridders=False):
             t["rq"] = comps(est.predict(q)) if is_g else []
         allg = all(s[2] for s in steps)
         obs_c = comps(chain.predict(coords)) if (allg and obs_q is not None) else []
+    nan_note = None
+    if outside:
+        isn = lambda cs: [any(c[i] != c[i] for c in cs) for i in range(len(cs[0]))] if cs else []
+        at_data = [t["pc"] for t in tables] + [t["fdata"] for t in tables] + [obs_c]
+        if obs_q is None or any(v != v for cs in at_data for c in cs for v in c):
+            return Case({"steps": names}, {}, "Vskip", "# skipped: non-finite value at the data points", kind + "-skipped")
+        expected = [False] * len(q[0])
+        for t in tables:
+            if t["g"]:
+                expected = [a or b for a, b in zip(expected, isn(t["rq"]))]
+        observed = isn(obs_q)
+        nan_note = {"expected_nan": expected, "observed_nan": observed}
+        if expected != observed:
+            return Case({"steps": names, "query_east": [float(v) for v in q[0]], "query_north": [float(v) for v in q[1]], **nan_note},
+                        {"chain_prediction_at_query": obs_q}, "mk_verdict false false",
+                        "# Chain(%s): the prediction must be NaN exactly where a step predicts NaN (sum of the steps); "
+                        "see harness/c06.py chain_case(outside=True)" % names, kind)
+        keep = [i for i in range(len(expected)) if not expected[i] and not any(t2["g"] and any(c[i] != c[i] for c in t2["pq"]) for t2 in tables)]
+        sel = lambda cs: [[c[i] for i in keep] for c in cs]
+        for t in tables:
+            if t["g"]:
+                t["pq"] = sel(t["pq"])
+                t["rq"] = sel(t["rq"])
+        obs_q = sel(obs_q)
     csteps = clist(["{| so_gridder := %s; so_pq := %s; so_pc := %s; so_fdata := %s; so_rq := %s; so_same_cw := %s |}" % (
         cbool(t["g"]), cc(t["pq"]), cc(t["pc"]), cc(t["fdata"]), cc(t["rq"]), cbool(t["same"])) for t in tables])
     cobs = "None" if obs_q is None else "(Some %s)" % cc(obs_q)
@@ -204,6 +235,15 @@ def vector_case(rnd, vd, kind):
     coords, data, weights, q = make_data(rnd, ncomp, True)
     subs = [make_step_gridder(rnd, vd, 1) for _ in range(ncomp)]
     names = [s[0] for s in subs]
+    if all(not nm.startswith("Chain") for nm in names) and rnd.random() < 0.6:
+        # exact zero weights, at DIFFERENT points in each component (a zero weight in one component must not
+        # remove the point from the others)
+        n_ = len(coords[0])
+        weights = tuple(w.copy() for w in weights)
+        for i, w in enumerate(weights):
+            for j in rnd.sample(range(n_), 3):
+                w[j] = 0.0
+        kind = kind + "-zero-weights"
     with warnings.catch_warnings():
         warnings.simplefilter("ignore")
         vec = vd.Vector([clone(s[1]) for s in subs]).fit(coords, data, weights)
@@ -248,6 +288,17 @@ def generate(tier, seed):
         cases.append(core.guarded(lambda: chain_case(rnd, vd, "chain-mixed"), {"fn": "chain_case"}, "chain_case"))
     for i in range(25 * n):
         cases.append(core.guarded(lambda: chain_case(rnd, vd, "chain-gridders", nsteps=rnd.randint(2, 4), all_gridders=True), {"fn": "chain_case"}, "chain_case"))
+    for i in range(10 * n):
+        def nan_steps():
+            first = rnd.choice([("Trend(1)", vd.Trend(1), True), ("Spline(damping=0.1)", vd.Spline(damping=0.1, mindist=1.0), True),
+                                ("BlockMean(1.2)", vd.BlockMean(spacing=1.2), False)])
+            hull = rnd.choice([("Linear()", vd.Linear(), True), ("Cubic()", vd.Cubic(), True)])
+            st = [first, hull] if rnd.random() < 0.6 else [hull, first if first[2] else ("Trend(0)", vd.Trend(0), True)]
+            if rnd.random() < 0.4:
+                st.append(("KNeighbors(1)", vd.KNeighbors(k=1), True))
+            return st
+        cases.append(core.guarded(lambda: chain_case(rnd, vd, "chain-nan-outside-hull", steps=nan_steps(), outside=True),
+                                  {"fn": "chain_case"}, "chain_case"))
     for i in range(20 * n):
         cases.append(core.guarded(lambda: filter_case(rnd, vd, "filter"), {"fn": "filter_case"}, "filter_case"))
     for i in range(20 * n):
